@@ -57,80 +57,7 @@ func runC01(p *Prog, r *Report, tier string) {
 	registryLengths(p, r, "R-CODEC.registry", tb)
 	prefixSites(p, r, "R-CODEC.prefix")
 
-	// (2) consumption choice: imported from C17's rule (phi of prefix reader / fixed length by ie.Len == VariableLength)
-	dds := p.Fn("(*pkg/collector.CollectingProcess).decodeDataSet")
-	if dds != nil {
-		n := 0
-		eachInstr(dds, func(in ssa.Instruction) {
-			c, ok := in.(*ssa.Call)
-			if !ok || calleeName(&c.Call) != "(*bytes.Buffer).Next" {
-				return
-			}
-			n++
-			okSel := false
-			if ph, ok := c.Call.Args[1].(*ssa.Phi); ok && len(ph.Edges) == 2 {
-				v, f := false, false
-				for _, e := range ph.Edges {
-					if ex, ok := e.(*ssa.Extract); ok {
-						if cc, ok := ex.Tuple.(*ssa.Call); ok && cc.Call.StaticCallee() != nil && len(callsTo(cc.Call.StaticCallee(), "(*bytes.Buffer).ReadByte")) > 0 {
-							v = true
-						}
-					}
-					if cv, ok := e.(*ssa.Convert); ok && isFieldLoad(cv.X, "pkg/entities.InfoElement.Len") {
-						f = true
-					}
-				}
-				okSel = v && f
-			}
-			// the decoded element is built from exactly these bytes and this element
-			okUse := false
-			for _, ref := range refs(c) {
-				if cc, ok := ref.(*ssa.Call); ok && calleeName(&cc.Call) == "pkg/entities.DecodeAndCreateInfoElementWithValue" && cc.Call.Args[1] == ssa.Value(c) {
-					okUse = true
-				}
-			}
-			// the guard in front of it must accept a field that exactly fills the rest of the set
-			buf, nn := c.Call.Args[0], c.Call.Args[1]
-			geq, gtr := false, false
-			for _, fct := range blockFacts(in.Block()) {
-				x, op, y := fct.X, fct.Op, fct.Y
-				if b, ok := isBufLen(y); ok && b == buf {
-					x, y, op = y, x, flipOp(op)
-				}
-				if b, ok := isBufLen(x); ok && b == buf && y == nn {
-					if op == token.GEQ {
-						geq = true
-					}
-					if op == token.GTR {
-						gtr = true
-					}
-				}
-			}
-			if geq || gtr {
-				r.Check(geq, "R-LAYOUT.field-guard", fnKey(dds)+": remaining-bytes test in front of the field", p.instrPos(in), "rejects only when fewer bytes remain than the field needs (Len() >= n passes)",
-					"the test also rejects a field that exactly fills the rest of the set body (Len() > n required): the last field of the last record of every valid data set is refused", true)
-			}
-			r.Check(okSel && okUse, "R-LAYOUT.field-bytes", fnKey(dds)+": bytes of one field", p.instrPos(in), "Next(prefix length | int(ie.Len)) handed with the same template element to the element decoder",
-				"a data field is not sliced by the template's length (or the section-7 prefix for variable-length elements) and decoded with its own template element", true)
-		})
-		if n == 0 {
-			r.Undecided("R-LAYOUT.field-bytes", fnKey(dds)+": bytes of one field", p.pos(dds.Pos()), "no Next call")
-		}
-		// every template element, in order: range over the template slice returned by the lookup
-		okOrder := false
-		eachInstr(dds, func(in ssa.Instruction) {
-			if c, ok := in.(*ssa.Call); ok && calleeName(&c.Call) == "pkg/entities.DecodeAndCreateInfoElementWithValue" {
-				if s, ok := rangeElem(c.Call.Args[0]); ok {
-					if ex, ok := s.(*ssa.Extract); ok && ex.Index == 0 {
-						if lc, ok := ex.Tuple.(*ssa.Call); ok && lc.Call.StaticCallee() != nil && lc.Call.StaticCallee().Name() == "getTemplateIEs" {
-							okOrder = true
-						}
-					}
-				}
-			}
-		})
-		r.Check(okOrder, "R-LAYOUT.field-order", fnKey(dds)+": fields decoded in template order", p.pos(dds.Pos()), "for _, ie := range <template fields of the lookup>", "the data record is not decoded by iterating the stored template's fields in order", true)
-	}
+	checkFieldBytes(p, r, "R-LAYOUT")
 
 	// (3) reader side of the message header
 	dp := p.Fn("(*pkg/collector.CollectingProcess).decodePacket")
@@ -348,6 +275,7 @@ func runC01(p *Prog, r *Report, tier string) {
 		r.Check(nLk == 2, "R-LAYOUT.field-specifier", fnKey(fr)+": registry lookup by (big-endian id bytes, enterprise number)", p.pos(fr.Pos()), "both branches", "the element id used for the registry lookup is not the big-endian value of the id bytes read from the wire", true)
 	}
 	checkSpecifierFreshness(p, r, "R-LAYOUT.field-specifier-fresh")
+	checkReverseRegistration(p, r, "R-TABLE.reverse")
 	checkRecordLoopExits(p, r, "R-LAYOUT.record-loop")
 	// framing of the stream transports (C11's rules, imported) and unconditional template replacement (C04's rule)
 	checkFraming(p, r)
@@ -590,4 +518,85 @@ func checkDatagramPath(p *Prog, r *Report, rule string) {
 	if n == 0 {
 		r.Undecided(rule, "anchor: UDP client call of decodePacket", "pkg/collector/udp.go", "not found")
 	}
+}
+
+// checkFieldBytes: the data reader consumes, for every template field in order, exactly the bytes the writer produced for
+// it: Next(prefix length | int(ie.Len)) chosen by ie.Len == VariableLength, guarded by a test that accepts an exact fit,
+// handed with the same template element to the element decoder.
+func checkFieldBytes(p *Prog, r *Report, rp string) {
+	// (2) consumption choice: imported from C17's rule (phi of prefix reader / fixed length by ie.Len == VariableLength)
+	dds := p.Fn("(*pkg/collector.CollectingProcess).decodeDataSet")
+	if dds != nil {
+		n := 0
+		eachInstr(dds, func(in ssa.Instruction) {
+			c, ok := in.(*ssa.Call)
+			if !ok || calleeName(&c.Call) != "(*bytes.Buffer).Next" {
+				return
+			}
+			n++
+			okSel := false
+			if ph, ok := c.Call.Args[1].(*ssa.Phi); ok && len(ph.Edges) == 2 {
+				v, f := false, false
+				for _, e := range ph.Edges {
+					if ex, ok := e.(*ssa.Extract); ok {
+						if cc, ok := ex.Tuple.(*ssa.Call); ok && cc.Call.StaticCallee() != nil && len(callsTo(cc.Call.StaticCallee(), "(*bytes.Buffer).ReadByte")) > 0 {
+							v = true
+						}
+					}
+					if cv, ok := e.(*ssa.Convert); ok && isFieldLoad(cv.X, "pkg/entities.InfoElement.Len") {
+						f = true
+					}
+				}
+				okSel = v && f
+			}
+			// the decoded element is built from exactly these bytes and this element
+			okUse := false
+			for _, ref := range refs(c) {
+				if cc, ok := ref.(*ssa.Call); ok && calleeName(&cc.Call) == "pkg/entities.DecodeAndCreateInfoElementWithValue" && cc.Call.Args[1] == ssa.Value(c) {
+					okUse = true
+				}
+			}
+			// the guard in front of it must accept a field that exactly fills the rest of the set
+			buf, nn := c.Call.Args[0], c.Call.Args[1]
+			geq, gtr := false, false
+			for _, fct := range blockFacts(in.Block()) {
+				x, op, y := fct.X, fct.Op, fct.Y
+				if b, ok := isBufLen(y); ok && b == buf {
+					x, y, op = y, x, flipOp(op)
+				}
+				if b, ok := isBufLen(x); ok && b == buf && y == nn {
+					if op == token.GEQ {
+						geq = true
+					}
+					if op == token.GTR {
+						gtr = true
+					}
+				}
+			}
+			if geq || gtr {
+				r.Check(geq, rp+".field-guard", fnKey(dds)+": remaining-bytes test in front of the field", p.instrPos(in), "rejects only when fewer bytes remain than the field needs (Len() >= n passes)",
+					"the test also rejects a field that exactly fills the rest of the set body (Len() > n required): the last field of the last record of every valid data set is refused", true)
+			}
+			r.Check(okSel && okUse, rp+".field-bytes", fnKey(dds)+": bytes of one field", p.instrPos(in), "Next(prefix length | int(ie.Len)) handed with the same template element to the element decoder",
+				"a data field is not sliced by the template's length (or the section-7 prefix for variable-length elements) and decoded with its own template element", true)
+		})
+		if n == 0 {
+			r.Undecided(rp+".field-bytes", fnKey(dds)+": bytes of one field", p.pos(dds.Pos()), "no Next call")
+		}
+		// every template element, in order: range over the template slice returned by the lookup
+		okOrder := false
+		eachInstr(dds, func(in ssa.Instruction) {
+			if c, ok := in.(*ssa.Call); ok && calleeName(&c.Call) == "pkg/entities.DecodeAndCreateInfoElementWithValue" {
+				if s, ok := rangeElem(c.Call.Args[0]); ok {
+					if ex, ok := s.(*ssa.Extract); ok && ex.Index == 0 {
+						if lc, ok := ex.Tuple.(*ssa.Call); ok && lc.Call.StaticCallee() != nil && lc.Call.StaticCallee().Name() == "getTemplateIEs" {
+							okOrder = true
+						}
+					}
+				}
+			}
+		})
+		r.Check(okOrder, rp+".field-order", fnKey(dds)+": fields decoded in template order", p.pos(dds.Pos()), "for _, ie := range <template fields of the lookup>", "the data record is not decoded by iterating the stored template's fields in order", true)
+	}
+
 }
